@@ -242,7 +242,7 @@ class ThreadWorld(World):
 
     # ------------------------------------------------------------------ executor
     def gen(self, rng):
-        nthreads = rng.choice([1, 2, 2, 3, 4])
+        nthreads = rng.choice([1, 2, 2, 3, 4] + ([5, 6] if self.run.tier == "thorough" else []))
         nc = len(self.catalogue)
         # half of the runs have a theme: most calls of every thread come from one family, so that the same code is
         # likely to be on several threads' stacks at once
